@@ -39,6 +39,14 @@ def workloads():
         (I(ex + "d/x"), I(ex + "p#q"), I(ex + "d/y")),
         (("bn", "b1"), I(ex + "other"), ("lit", "chat", "en", "")),
     ], ())
+    # eviction-heavy: 14 names, 5 prefixes, 3 datatypes cycling through tables of 8 / 3 / 2 slots, every statement touching two or three entries
+    # of the same table -- whatever order the encoder visits them in decides who is evicted next
+    def ev(i, quads):
+        st = (I(f"{ex}n{i % 5}/name{i % 14}"), I(f"{ex}n{(i * 3) % 5}/name{(i * 5 + 1) % 14}"),
+              (("lit", str(i % 4), "", f"{ex}dt{i % 3}") if i % 3 == 0 else I(f"{ex}n{(i + 2) % 5}/name{(i * 7 + 3) % 14}")))
+        return st + ((I(f"{ex}n{i % 5}/name{(i + 9) % 14}") if i % 4 else ("dg",),) if quads else ())      # (graph in the subject's namespace: at most 3 prefixes per quad)
+    w["E"] = ("generic", 1, [ev(i, False) for i in range(60)], ())
+    w["F"] = ("rdflib", 2, [ev(i, True) for i in range(60)], ())
     return w
 
 
